@@ -373,6 +373,41 @@ def run(ck):
     ck.ob('SIB-reject', itp.loc(sib), 'IndexError' in g_itp and 'IndexError' in g_ff and lower_itp,
           'both readers reject an index beyond the block size; the .itp reader rejects indices below 1',
           key='SIB-reject|index-upper-bound')
+    # the .itp lower bound on its own terms (not only relative to the sibling): over the values isdigit() admits, exactly 0 is rejected before the lookup
+    def rejects(fn, value):
+        """does a raise of the numeric branch fire for reference == str(value)?  (IndexError handlers are the upper bound, not evaluated here)"""
+        for st, cond, _e in raise_conditions(fn):
+            atoms = list(flow.atoms_of(cond))
+            if not any('isdigit' in atom_text(a) for a in atoms) or isinstance(module_try(fn, st), ast.ExceptHandler):
+                continue
+            val = {}
+            for a in atoms:
+                t = atom_text(a)
+                if 'isdigit' in t:
+                    val[a] = True
+                elif a[0] in ('Gt', 'GtE', 'Lt', 'LtE', 'Eq', 'NotEq') and 'int(' in t:
+                    sym = {'Gt': '>', 'GtE': '>=', 'Lt': '<', 'LtE': '<=', 'Eq': '==', 'NotEq': '!='}[a[0]]
+                    try:
+                        val[a] = bool(interp.ev(ast.parse('({}) {} ({})'.format(a[1], sym, a[2]), mode='eval').body, {'reference': str(value), 'atom': [str(value)]}))
+                    except interp.Unsupported:
+                        return None
+                else:
+                    val[a] = False
+            if flow.ev(cond, val):
+                return True
+        return False
+
+    def module_try(fn, st):
+        for anc in itp.ancestors(st):
+            if isinstance(anc, ast.ExceptHandler):
+                return anc
+            if anc is fn:
+                break
+        return None
+    table = {v: rejects(sib, v) for v in (0, 1, 2, 7)}
+    ck.ob('DT-reject', itp.loc(sib), table == {0: True, 1: False, 2: False, 7: False},
+          'the .itp reader rejects the numeric atom reference 0 (which would denote the last atom) and no valid index: rejection table {}'.format(table),
+          key='DT-reject|itp-index-zero')
     # name branch guards agree
     def name_guards(fn):
         out = set()
@@ -449,6 +484,23 @@ def run(ck):
     ck.analysed(mi, rp)
     dup = [(st_, c_) for st_, c_, e_ in raise_conditions(rp) if any(k[0] == 'In' and k[1] == 'from_atom' and k[2] == 'mapping' for k in flow.atoms_of(c_))]
     ck.ob('DT-reject', mi.loc(rp), len(dup) == 1, 'a source atom defined twice in [ atoms ] is rejected', key='DT-reject|map-duplicate-atom')
+    # [ edges ] / [ non-edges ]: the graph keys used are the normalised (prefixed) ones, never the raw text of the line
+    pe = ff.func('_parse_edges')
+    ck.analysed(ff, pe)
+    adds = [c for c in walk_local(pe) if isinstance(c, ast.Call) and call_attr(c) == 'add_edge']
+    nons = [c for c in walk_local(pe) if isinstance(c, ast.Call) and call_attr(c) == 'append' and u(c.func.value).endswith('non_edges')]
+    lp = [l for l in pe.body if isinstance(l, ast.For) and u(l.iter) == 'atoms']
+    ok = len(adds) == 1 and [u(a) for a in adds[0].args] == ['prefixed_atoms[0][0]', 'prefixed_atoms[1][0]'] and \
+        len(nons) == 1 and u(nons[0].args[0]) == '[prefixed_atoms[0][0], prefixed_atoms[1][1]]' and len(lp) == 1
+    if ok:
+        body = u(lp[0])
+        tp = [c for c in ast.walk(lp[0]) if isinstance(c, ast.Call) and call_name(c) == '_treat_atom_prefix']
+        app = [st_ for st_ in lp[0].body if isinstance(st_, ast.Expr) and call_attr(st_.value) == 'append' and u(st_.value.func.value) == 'prefixed_atoms']
+        ok = len(tp) == 1 and u(tp[0]) in ('_treat_atom_prefix(*atom)', '_treat_atom_prefix(atom[0], atom[1])') and len(app) == 1 and \
+            u(app[0].value.args[0]) == '[prefixed_reference, full_attributes]' and 'prefixed_reference, attributes = _treat_atom_prefix(' in body and \
+            unconditional_in(pe, lp[0].body, app[0])
+    ck.ob('DT-prefix-order', ff.loc(pe), ok, 'an [ edges ] line joins the two normalised keys (prefix from the written prefix or from the order attribute); a [ non-edges ] line '
+          'records the normalised key of the first atom and the attributes of the second', key='DT-prefix-order|edges-use-normalised-keys')
     prefix_order_table(ck, ff)
     shared.truthy_zero(ck, [FF, ITP, PU, MAP, 'vermouth/map_input.py'])
     ck.assume('token-level grammar, macro substitution results and .map weight arithmetic are not decided')
